@@ -58,6 +58,7 @@ type Node struct {
 	OnProcess    func()
 	OnProcessCtx func(ctx context.Context) // like OnProcess, with the context the node was given
 	OnReopen     func(n int64) error       // called with the running count of Reopen calls; its error is returned
+	OnType       func()                    // Type() is user code too
 }
 
 func (n *Node) Process(ctx context.Context, e *eventlogger.Event) (*eventlogger.Event, error) {
@@ -92,6 +93,9 @@ func (n *Node) Reopen() error {
 }
 
 func (n *Node) Type() eventlogger.NodeType {
+	if n.OnType != nil {
+		n.OnType()
+	}
 	if n.Yield {
 		runtime.Gosched()
 	}
